@@ -341,6 +341,11 @@ func (s *StreamJoin) receiveRecord(ctx ExecutionContext, produce ProduceFn, myRe
 		key[i] = value
 	}
 
+	if joinKeyHasNull(key) {
+		// Join keys come from equality predicates and NULL = x is never true: this record matches nothing.
+		return nil
+	}
+
 	if !oneStreamRemains {
 		// Update count in my record tree
 		// If only one stream remains, we won't be using it anymore, so we don't need to update it.
@@ -419,4 +424,14 @@ func (s *StreamJoin) receiveRecord(ctx ExecutionContext, produce ProduceFn, myRe
 	}
 
 	return nil
+}
+
+// joinKeyHasNull reports whether a join key contains a NULL. Such a key never matches any key (including itself).
+func joinKeyHasNull(key GroupKey) bool {
+	for i := range key {
+		if key[i].TypeID == octosql.TypeIDNull {
+			return true
+		}
+	}
+	return false
 }
